@@ -95,6 +95,16 @@ TIE = {
 # the directory given with -s is not a package: the analysed package is the nearest one below it (fewest path segments),
 # whatever the order in which the file system enumerates the sub-directories ("aaa" holds the deeper one, "zzz" the nearer one,
 # and the other way round)
+# a class that is defined in the package file of a sub-package and re-exported by the parent package (the package files reach the
+# analyser as ancestors of whichever module the file system lists first); a parameter whose meaning depends on type checker settings
+ORD = {
+    "__init__.py": "from .alpha import Thing\n",
+    "alpha/__init__.py": "class Thing:\n    def run(self) -> int:\n        ...\n",
+    "alpha/amod.py": "def fa() -> int:\n    ...\n",
+    "zmod.py": "def gz(v: int = None, w: str = \"a\") -> int:\n    ...\n",
+    "beta/__init__.py": "from ordpk.alpha import Thing\n\n\nclass Other:\n    pass\n",
+    "beta/bmod.py": "def fb() -> int:\n    ...\n",
+}
 ROOTS = {
     "rootpk": {"aaa/deep/inner/__init__.py": "", "aaa/deep/inner/modi.py": "def inner_fun() -> int:\n    ...\n",
                "zzz/top/__init__.py": "", "zzz/top/modt.py": "class Top:\n    pass\n"},
@@ -110,7 +120,7 @@ def main(v: Verdict) -> None:
         return
     envs = recs[0]
     envs.sort(key=lambda e: (e["seed"] != 0 or e["glob"] != 0 or e["cwd"] != "parent" or e["spelling"] != "abs" or e["rep"] != 1, json.dumps(e, sort_keys=True)))
-    pkgs = {"detpk": write_pkg(RICH, "detpk"), "tiepk": write_pkg(TIE, "tiepk")}
+    pkgs = {"detpk": write_pkg(RICH, "detpk"), "tiepk": write_pkg(TIE, "tiepk"), "ordpk": write_pkg(ORD, "ordpk")}
     pkgs.update({name: write_pkg(files, name) for name, files in ROOTS.items()})
     jobs, meta = [], []
     for name, d in pkgs.items():
@@ -120,6 +130,9 @@ def main(v: Verdict) -> None:
             if e["cwd"] == "elsewhere":
                 kw["cwd"] = fresh_dir("cwd")
                 kw["out"] = kw["cwd"] / "nested" / "out"
+                # that working directory happens to hold configuration files of the type checker
+                (kw["cwd"] / "mypy.ini").write_text("[mypy]\nimplicit_optional = True\nstrict_optional = False\n")
+                (kw["cwd"] / "setup.cfg").write_text("[mypy]\nimplicit_optional = True\n")
             elif e["spelling"] == "rel":
                 kw["cwd"] = fresh_dir("cwd")
                 kw["out"] = kw["cwd"] / "out"
